@@ -4,6 +4,7 @@
 //! schedules, or from seeded random choice), calls the REAL emulator built from /repo with
 //! `--cfg koge29_verif`, and writes one ndjson event per linearisation point.  There is no oracle
 //! here: all expected values are computed by TLC from the specification (spec/TraceH8.tla).
+mod bus;
 mod cases;
 mod cost;
 mod forms;
@@ -52,6 +53,10 @@ fn main() {
             std::process::exit(2);
         }
     };
+    // anyhow captures a backtrace per error when RUST_BACKTRACE is set: far too slow for sweeps that
+    // provoke millions of (expected) bus errors
+    std::env::set_var("RUST_BACKTRACE", "0");
+    std::env::set_var("RUST_LIB_BACKTRACE", "0");
     machine::install_quiet_panic_hook();
     let r = match args.cmd.as_str() {
         "step-cases" => cases::run_step_cases(&args),
@@ -60,6 +65,10 @@ fn main() {
         "panic-sweep" => sweep::run_sweep(&args, true),
         "mes-cases" => mes::run_mes(&args),
         "cost-table" => cost::run_cost(&args),
+        "bus-scan" => bus::run_scan(&args),
+        "bus-history" => bus::run_bus_history(&args),
+        "port-replay" => bus::run_port_replay(&args),
+        "timer-replay" => bus::run_timer_replay(&args),
         _ => Err(anyhow!("unknown command {}", args.cmd)),
     };
     if let Err(e) = r {
